@@ -3,10 +3,12 @@ package main
 import (
 	"gtsverif/core"
 	"gtsverif/engines/cachekey"
+	"gtsverif/engines/integrity"
 	"gtsverif/engines/tables"
 )
 
 func init() {
 	register("C18", false, func(p *core.Prog, r *core.Report, tier string) { tables.C18(p, r) })
+	register("C13", false, func(p *core.Prog, r *core.Report, tier string) { integrity.C13(p, r) })
 	register("C14", false, func(p *core.Prog, r *core.Report, tier string) { cachekey.C14(p, r) })
 }
